@@ -73,6 +73,8 @@ type dop struct {
 	Op string `json:"op"`
 	A  int    `json:"a,omitempty"`
 	B  []int  `json:"b,omitempty"`
+	// More: the next operation arrives before the next draw
+	More bool `json:"no_draw_before_the_next_op,omitempty"`
 }
 
 type dcase struct {
@@ -179,6 +181,12 @@ func runDynamic(w *harness.W, c dcase, sample bool) {
 			fail("cursor-out-of-range", fmt.Sprintf("cursor %d with %d items", d.Cursor(), len(heights)), i)
 			return
 		}
+		if o.More && i+1 < len(c.Ops) {
+			// several operations in one frame; the selection rule is judged
+			// when the selection change is the last of them
+			w.Count("operations_without_a_draw_in_between", 1)
+			continue
+		}
 		var s vxfw.Surface
 		val, stack, panicked = harness.Recover(func() {
 			s, _ = d.Draw(vxfw.DrawContext{Max: vxfw.Size{Width: uint16(W), Height: uint16(H)}, Characters: vaxis.Characters})
@@ -266,6 +274,9 @@ func genDynamic(r gen.R) dcase {
 	}
 	c.Heights = mk()
 	for i := 0; i < 60; i++ {
+		if n := len(c.Ops); n > 0 && r.Intn(4) == 0 {
+			c.Ops[n-1].More = true
+		}
 		switch k := r.Intn(20); {
 		case k < 5:
 			c.Ops = append(c.Ops, dop{Op: "next"})
